@@ -6,8 +6,11 @@ package ref
 // partition by value equality, order by the ORDER BY items, apply the
 // function's definition to each row's frame.
 //
-// Domain of the model: partition / order key values are integers, plain
-// non-numeric strings and NULL; one order column holds one type (plus NULL).
+// Domain of the model: partition / order key values are integers, floats,
+// strings (spelling an integer, a float, a datetime, a boolean - partition
+// keys only - or plain text) and NULL; one order column holds one family
+// (numbers, datetimes or text, plus NULL); equality and order follow the
+// documented conversion ladder (ladder.go, C04Normalise).
 
 import (
 	"encoding/json"
@@ -89,17 +92,15 @@ type AnaResult struct {
 	Reading string // which admissible reading matched (when several exist)
 }
 
-// anaKeyEq: equality of two partition key cells. A string spelling an integer
-// is that integer (comparison ladder); integers compare exactly (64 bits).
-// Floats are kept out of partition keys by the callers (integer n vs float n.0
-// in one bucket is an open pair, see C04).
+// anaKeyEq: equality of two partition key cells under the documented
+// normalisation (integer, float, datetime, boolean, else case-insensitive text
+// without edge blanks; see C04Normalise): a string spelling an integer is that
+// integer and integers compare exactly (64 bits), "1.5", "1.50" and "15e-1" are
+// one float, the spellings of one instant are one datetime, "a", "A" and " a"
+// are one text. The pairs the manual leaves open (integer n vs float n.0,
+// boolean vs 0/1) are kept out of partition keys by the callers.
 func anaKeyEq(a, b val.Val) bool {
-	ai, aok := AsInteger(a)
-	bi, bok := AsInteger(b)
-	if aok || bok {
-		return aok && bok && ai == bi
-	}
-	return a == b
+	return C04EStrict(C04Normalise(a, false), C04Normalise(b, false), false)
 }
 
 func anaSame(a, b []val.Val) bool {
@@ -114,13 +115,20 @@ func anaSame(a, b []val.Val) bool {
 	return true
 }
 
+// AnaKeyEq: the two cells are one PARTITION BY value (see anaKeyEq).
+func AnaKeyEq(a, b val.Val) bool { return anaKeyEq(a, b) }
+
 // AnaPartitions groups row indices by equal partition values, in order of first appearance.
 func AnaPartitions(part [][]val.Val, n int) [][]int {
+	norm := make([]C04Tuple, n)
+	for i := 0; i < n; i++ {
+		norm[i] = C04NormaliseTuple(part[i], false)
+	}
 	var out [][]int
 	for i := 0; i < n; i++ {
 		found := false
 		for g := range out {
-			if anaSame(part[out[g][0]], part[i]) {
+			if len(norm[out[g][0]]) == len(norm[i]) && C04EStrictTuple(norm[out[g][0]], norm[i], false) {
 				out[g] = append(out[g], i)
 				found = true
 				break
@@ -152,8 +160,8 @@ func anaCmpVal(a, b val.Val, it AnaOrder) int {
 	// compare exactly as 64-bit integers; an integer and a float compare as
 	// float64; two other strings compare as text
 	c := 0
-	if a.K == "S" && b.K == "S" && plainText(a.S) && plainText(b.S) { // fast path
-		c = strings.Compare(a.S, b.S)
+	if a.K == "S" && b.K == "S" && plainText(a.S) && plainText(b.S) { // fast path: text compares case-insensitively, without edge blanks
+		c = strings.Compare(strings.ToUpper(trimBlank(a.S)), strings.ToUpper(trimBlank(b.S)))
 		if it.Desc {
 			c = -c
 		}
@@ -179,10 +187,24 @@ func anaCmpVal(a, b val.Val, it AnaOrder) int {
 		} else if af > bf {
 			c = 1
 		}
-	case a.K == "S" && b.K == "S" && !aNum && !bNum:
-		c = strings.Compare(a.S, b.S)
 	default:
-		panic(fmt.Sprintf("reference model: mixed types in an order column: %s %s", a, b))
+		// datetime rung (Datetime values and the spellings of one instant are equal), then text
+		da, aDt := AsDatetime(a)
+		db, bDt := AsDatetime(b)
+		switch {
+		case aNum || bNum:
+			panic(fmt.Sprintf("reference model: mixed types in an order column: %s %s", a, b))
+		case aDt && bDt:
+			if da.Before(db) {
+				c = -1
+			} else if da.After(db) {
+				c = 1
+			}
+		case !aDt && !bDt && a.K == "S" && b.K == "S":
+			c = strings.Compare(strings.ToUpper(trimBlank(a.S)), strings.ToUpper(trimBlank(b.S)))
+		default:
+			panic(fmt.Sprintf("reference model: mixed types in an order column: %s %s", a, b))
+		}
 	}
 	if it.Desc {
 		c = -c
